@@ -1012,7 +1012,7 @@ static void SwitchTo_HMCS400(void) {
     SegInits[SegCode]  = 0;
     Grans[SegData]     = 1;
     ListGrans[SegData] = 1;
-    SegInits[SegCode]  = 0;
+    SegInits[SegData]  = 0;
     Grans[SegIO]       = 1;
     ListGrans[SegIO]   = 1;
     SegInits[SegIO]    = 0;
